@@ -44,6 +44,7 @@ func c02(c *Ctx) {
 	c03R6(c)
 	mergeRule(c, "C08.R10")
 	c02R9(c)
+	c02R10(c)
 	// a pod's addresses are released together (shared rule): a leftover IPv6 of a deleted pod would be
 	// inherited by its same-named successor next to an IPv4 from another interface
 	c03R1(c)
@@ -800,4 +801,97 @@ func c02R9(c *Ctx) {
 		c.Check(got == want[in], "C02.R9", "status "+strconv.Quote(in)+" is read as "+strconv.Quote(want[in]), p.Pos(region[0]), fn.Key(), strconv.Quote(in)+" → "+strconv.Quote(want[in]), "the code yields "+strconv.Quote(shown))
 	}
 	c.Floor("C02.R9", "inputs tabulated", 7, len(ins))
+}
+
+// R10: the description of a new interface is recorded as read. createENI waits for the interface and
+// files the cloud's description of it (type, traffic mode, addresses) in the node record; no field of
+// that description is overwritten on the way — in particular not from the *create* answer, which does
+// not carry the traffic mode: an RDMA interface recorded without it takes ordinary pods.
+func c02R10(c *Ctx) {
+	p := asWritten(c.P) // a statement about the author's text: which answer feeds which field
+	c.Rule("C02.R10", "ReconcileNode.createENI: the value returned by WaitForNetworkInterface… is recorded without any of its fields being assigned in between (the cloud's description is read as what it says)")
+	fn := p.Func(nodeCtlPkg, "ReconcileNode.createENI")
+	if fn == nil {
+		c.Unres("C02.R10", "ReconcileNode.createENI", "not found")
+		return
+	}
+	info := fn.Info()
+	var desc types.Object
+	ast.Inspect(fn.Decl.Body, func(k ast.Node) bool {
+		if as, ok := k.(*ast.AssignStmt); ok && len(as.Rhs) == 1 && len(as.Lhs) >= 1 {
+			if call, ok := ast.Unparen(as.Rhs[0]).(*ast.CallExpr); ok {
+				if f := Callee(info, call); f != nil && strings.HasPrefix(f.Name(), "WaitForNetworkInterface") {
+					desc = identObj(info, as.Lhs[0])
+				}
+			}
+		}
+		return true
+	})
+	if desc == nil {
+		c.Undec("C02.R10", "createENI waits for the interface", p.Pos(fn.Decl), fn.Key(), "eni, err := WaitForNetworkInterface…(…)", "not found")
+		return
+	}
+	var stores []string
+	ast.Inspect(fn.Decl.Body, func(k ast.Node) bool {
+		if as, ok := k.(*ast.AssignStmt); ok {
+			for _, l := range as.Lhs {
+				if sel, ok := ast.Unparen(l).(*ast.SelectorExpr); ok {
+					if root := rootIdent(sel); root != nil && info.ObjectOf(root) == desc {
+						stores = append(stores, p.Pos(as)+": "+exprString2(as))
+					}
+				}
+			}
+		}
+		return true
+	})
+	c.Check(len(stores) == 0, "C02.R10", "createENI: the description is not edited", p.Pos(fn.Decl), fn.Key(), "no assignment to a field of the described interface", strings.Join(stores, "; "))
+	// the record entry built from the description takes nothing from the create answer afterwards
+	var entry, created types.Object
+	ast.Inspect(fn.Decl.Body, func(k ast.Node) bool {
+		if as, ok := k.(*ast.AssignStmt); ok && len(as.Rhs) == 1 && len(as.Lhs) >= 1 {
+			if call, ok := ast.Unparen(as.Rhs[0]).(*ast.CallExpr); ok {
+				if f := Callee(info, call); f != nil && strings.HasPrefix(f.Name(), "CreateNetworkInterface") && created == nil {
+					created = identObj(info, as.Lhs[0])
+				}
+				for _, a := range call.Args {
+					if identObj(info, a) == desc && len(as.Lhs) == 1 {
+						entry = identObj(info, as.Lhs[0])
+					}
+				}
+			}
+		}
+		return true
+	})
+	if entry == nil || created == nil {
+		c.Undec("C02.R10", "createENI: record entry and create answer", p.Pos(fn.Decl), fn.Key(), "entry := build(description); result := Create…", fmt.Sprintf("entry found=%v create answer found=%v", entry != nil, created != nil))
+		return
+	}
+	var fromCreate []string
+	ast.Inspect(fn.Decl.Body, func(k ast.Node) bool {
+		as, ok := k.(*ast.AssignStmt)
+		if !ok {
+			return true
+		}
+		for i, l := range as.Lhs {
+			sel, ok := ast.Unparen(l).(*ast.SelectorExpr)
+			if !ok || i >= len(as.Rhs) {
+				continue
+			}
+			if root := rootIdent(sel); root == nil || info.ObjectOf(root) != entry {
+				continue
+			}
+			mentions := false
+			ast.Inspect(as.Rhs[i], func(j ast.Node) bool {
+				if id, ok := j.(*ast.Ident); ok && info.ObjectOf(id) == created {
+					mentions = true
+				}
+				return !mentions
+			})
+			if mentions {
+				fromCreate = append(fromCreate, p.Pos(as)+": "+exprString2(as))
+			}
+		}
+		return true
+	})
+	c.Check(len(fromCreate) == 0, "C02.R10", "createENI: the recorded entry takes nothing from the create answer", p.Pos(fn.Decl), fn.Key(), "fields of the entry come from the description (and the chosen vSwitch)", strings.Join(fromCreate, "; "))
 }
